@@ -9,7 +9,7 @@
 //! "class" / "expect" / "want_*" are read by the oracle only; "prim" (table of third-party curve results for
 //! Ed25519 / X25519 / BLS12-381) is read by the Lean model only.
 use crate::rng::Rng;
-use askar_crypto::alg::{AesTypes, AnyKey, AnyKeyCreate, BlsCurves, Chacha20Types, EcCurves, HasKeyAlg, KeyAlg};
+use askar_crypto::alg::{AesTypes, AnyKey, AnyKeyCreate, BlsCurves, Chacha20Types, EcCurves, KeyAlg};
 use askar_crypto::jwk::{FromJwk, JwkBufferEncoder, JwkEncoderMode, JwkParts, ToJwk};
 use askar_crypto::repr::{ToPublicBytes, ToSecretBytes};
 use serde_json::{json, Map, Value};
@@ -200,6 +200,14 @@ fn import_jwk(text: &str) -> Result<Key, &'static str> { guarded(|| Key::from_jw
 
 fn fail(or: &mut Vec<Value>, sig: String, detail: Value) { or.push(json!({ "sig": sig, "detail": detail })); }
 
+/// the part of a generator class that goes into a signature: the mutation family, not its instance
+fn sigclass(class: &str) -> String {
+    let mut it = class.split(':');
+    let a = it.next().unwrap_or("");
+    if a == "unknown-member" || a == "perm" || a == "whitespace" || a == "canonical" || a == "known-extra" { return a.to_string(); }
+    match it.next() { Some(b) => format!("{}:{}", a, b), None => a.to_string() }
+}
+
 /// RFC 7638 / RFC 8037 canonical thumbprint input built from a JWK parsed by serde_json
 fn rfc7638_input(jwk: &Value) -> Option<String> {
     let o = jwk.as_object()?;
@@ -288,13 +296,13 @@ fn check_key(or: &mut Vec<Value>, k: &AnyKey, s: &Value) {
         if let Some(t) = p.as_str() {
             let v: Value = serde_json::from_str(t).unwrap_or(Value::Null);
             let leak_member = v.get("d").is_some() || v.get("k").is_some();
-            let leak_text = secret.as_ref().map_or(false, |sk| !sk.is_empty() && t.contains(&b64e(sk)));
+            let leak_text = secret.as_ref().map_or(false, |sk| entropy(sk) && t.contains(&b64e(sk)));
             if !v.is_object() { fail(or, format!("public_export:not-json:{}", c.s()), json!({"jwk": t})); }
             if leak_member || leak_text { fail(or, format!("public_export:secret-leaked:{}", c.s()), json!({"jwk": t})); }
         }
     }
     if let (Some(pk), Some(sk)) = (&public, &secret) {
-        if sk.len() >= 16 && pk.windows(sk.len()).any(|w| w == &sk[..]) { fail(or, format!("public_export:secret-in-public-bytes:{}", c.s()), json!(null)); }
+        if entropy(sk) && pk.windows(sk.len()).any(|w| w == &sk[..]) { fail(or, format!("public_export:secret-in-public-bytes:{}", c.s()), json!(null)); }
     }
     // thumbprints
     let reference = if c == Class::Sym { &s["jwk_secret"] } else { &s["jwk_public"] };
@@ -304,6 +312,9 @@ fn check_key(or: &mut Vec<Value>, k: &AnyKey, s: &Value) {
         check_thumb(or, k, Some(KeyAlg::Bls12_381(BlsCurves::G2)), &s["g2"]["jwk_public"], &s["g2"]["thumb_pre"], c, "g2");
     }
 }
+
+/// enough distinct byte values that a coincidental occurrence inside another encoding is out of the question
+fn entropy(b: &[u8]) -> bool { let mut seen = [false; 256]; for &x in b { seen[x as usize] = true; } seen.iter().filter(|&&x| x).count() >= 8 }
 
 const ORDER_P256: &str = "ffffffff00000000ffffffffffffffffbce6faada7179e84f3b9cac2fc632551";
 const ORDER_P384: &str = "ffffffffffffffffffffffffffffffffffffffffffffffffc7634d81f4372ddf581a0db248b0a77aecec196accc52973";
@@ -388,8 +399,8 @@ pub fn exec(case: &Value, _tag: &str) -> Value {
             bump(&mut feat, format!("parse:{}", if ok { "ok" } else { "err" }));
             if out["err"] == "Panic" { fail(&mut or, format!("parse:err->panic:{}", class), json!({"text": text})); }
             match expect {
-                Some("ok") if !ok => fail(&mut or, format!("parse:ok->err:{}:{}", out["err"].as_str().unwrap_or(""), class), json!({"text": text})),
-                Some("err") if ok => fail(&mut or, format!("parse:err->ok:{}", class), json!({"text": text})),
+                Some("ok") if !ok => fail(&mut or, format!("parse:ok->err:{}:{}", out["err"].as_str().unwrap_or(""), sigclass(&class)), json!({"text": text, "class": class})),
+                Some("err") if ok => fail(&mut or, format!("parse:err->ok:{}", sigclass(&class)), json!({"text": text, "class": class})),
                 _ => {}
             }
             // an accepted, well-formed JWK must yield exactly the member values (last occurrence)
@@ -398,7 +409,7 @@ pub fn exec(case: &Value, _tag: &str) -> Value {
                     for f in ["kty", "kid", "alg", "crv", "x", "y", "d", "k"] {
                         let want = o.get(f).and_then(|v| v.as_str()).map(|s| hex::encode(s.as_bytes()));
                         let got = out["parts"][f].as_str().map(|s| s.to_string());
-                        if want != got { fail(&mut or, format!("parse:wrong-member-value:{}:{}", f, class), json!({"text": text})); }
+                        if want != got { fail(&mut or, format!("parse:wrong-member-value:{}:{}", f, sigclass(&class)), json!({"text": text})); }
                     }
                 }
             }
@@ -411,19 +422,27 @@ pub fn exec(case: &Value, _tag: &str) -> Value {
                     let s = summary(&k);
                     let c = alg_by_keyalg(k.algorithm()).class;
                     bump(&mut feat, format!("jwk:ok:{}", c.s()));
-                    if expect == Some("err") { fail(&mut or, format!("from_jwk:err->ok:{}:{}", c.s(), class), json!({"text": text})); }
+                    if expect == Some("err") {
+                        let sc = sigclass(&class);
+                        let sig = if sc.starts_with("not-json") { format!("from_jwk:err->ok:{}", sc) } else { format!("from_jwk:err->ok:{}:{}", c.s(), sc) };
+                        fail(&mut or, sig, json!({"text": text, "class": class}));
+                    }
                     // never a key different from the one encoded
-                    if let Some(w) = case["want_secret"].as_str() { if s["secret"].as_str() != Some(w) { fail(&mut or, format!("from_jwk:different-secret:{}:{}", c.s(), class), json!({"text": text})); } }
-                    if case.get("want_secret").map_or(false, |v| v.is_null()) && s["secret"].as_str().is_some() { fail(&mut or, format!("from_jwk:secret-from-nowhere:{}:{}", c.s(), class), json!({"text": text})); }
-                    if let Some(w) = case["want_public"].as_str() { if s["public"].as_str() != Some(w) { fail(&mut or, format!("from_jwk:different-public:{}:{}", c.s(), class), json!({"text": text})); } }
+                    if let Some(w) = case["want_secret"].as_str() { if s["secret"].as_str() != Some(w) { fail(&mut or, format!("from_jwk:different-secret:{}:{}", c.s(), sigclass(&class)), json!({"text": text})); } }
+                    if case.get("want_secret").map_or(false, |v| v.is_null()) && s["secret"].as_str().is_some() { fail(&mut or, format!("from_jwk:secret-from-nowhere:{}:{}", c.s(), sigclass(&class)), json!({"text": text})); }
+                    if let Some(w) = case["want_public"].as_str() { if s["public"].as_str() != Some(w) { fail(&mut or, format!("from_jwk:different-public:{}:{}", c.s(), sigclass(&class)), json!({"text": text})); } }
                     check_key(&mut or, &k, &s);
                     s
                 }
                 Err(e) => {
                     bump(&mut feat, format!("jwk:err:{}", e));
                     let ac = case["alg_class"].as_str().unwrap_or("");
-                    if e == "Panic" { fail(&mut or, format!("from_jwk:err->panic:{}:{}", ac, class), json!({"text": text})); }
-                    else if expect == Some("ok") { fail(&mut or, format!("from_jwk:ok->err:{}:{}:{}", e, ac, class), json!({"text": text})); }
+                    if e == "Panic" { fail(&mut or, format!("from_jwk:err->panic:{}:{}", ac, sigclass(&class)), json!({"text": text, "class": class})); }
+                    else if expect == Some("ok") {
+                        // no symmetric key can be imported from a JWK at all (no `oct` branch): one signature for that
+                        let sig = if ac == "sym" && e == "Unsupported" { "from_jwk:ok->err:Unsupported:oct".to_string() } else { format!("from_jwk:ok->err:{}:{}", e, sigclass(&class)) };
+                        fail(&mut or, sig, json!({"text": text, "class": class, "alg_class": ac}));
+                    }
                     jerr(e)
                 }
             }
@@ -798,17 +817,24 @@ fn gen_jwk_for_alg(o: &mut Out, r: &mut Rng, info: &AlgInfo, thorough: bool) {
         let body = &text[1..text.len() - 1];
         let extra = || json!({"prim": hints_members(&sec_ms), "alg_class": info.class.s(), "alg": info.name});
         for (name, t) in [
-            ("name-without-value-last", format!("{{{},\"foo\"}}", body)), ("name-without-value-first", format!("{{\"foo\",{}}}", body)),
+            ("name-without-value:last", format!("{{{},\"foo\"}}", body)), ("name-without-value:first", format!("{{\"foo\",{}}}", body)),
             ("trailing-garbage", format!("{} x", text)), ("trailing-object", format!("{}{}", text, text)), ("unterminated", format!("{{{}", body)),
             ("trailing-comma", format!("{{{},}}", body)), ("leading-comma", format!("{{,{}}}", body)), ("double-comma", body.replacen(',', ",,", 1).to_string().pipe_wrap()),
             ("missing-comma", format!("{{{}}}", body.replacen(',', " ", 1))), ("missing-colon", format!("{{{}}}", body.replacen(':', " ", 1))),
             ("single-quotes", text.replace('"', "'")), ("array", format!("[{}]", text)), ("string", format!("\"{}\"", body.replace('"', "\\\""))),
-            ("key_ops-leading-comma", format!("{{{},\"key_ops\":[,\"sign\"]}}", body)), ("key_ops-missing-comma", format!("{{{},\"key_ops\":[,\"sign\" \"verify\"]}}", body)),
-            ("key_ops-trailing-comma", format!("{{{},\"key_ops\":[\"sign\",]}}", body)), ("unquoted-value", format!("{{{},\"foo\":bar}}", body)),
-            ("unknown-garbage-value", format!("{{{},\"foo\":@@@[[[}}", body)),
+            ("key_ops-trailing-comma", format!("{{{},\"key_ops\":[\"sign\",]}}", body)),
         ] {
             o.text_case("c14:jwk", &t, &format!("not-json:{}", name), Some("err"), extra());
             o.text_case("c14:parse", &t, &format!("not-json:{}", name), Some("err"), json!({}));
+        }
+        // laxness of the third-party deserializer itself (serde-json-core's SeqAccess / IgnoredAny): no claim, model agreement only
+        for (name, t) in [
+            ("key_ops-leading-comma", format!("{{{},\"key_ops\":[,\"sign\"]}}", body)), ("key_ops-missing-comma", format!("{{{},\"key_ops\":[,\"sign\" \"verify\"]}}", body)),
+            ("unquoted-unknown-value", format!("{{{},\"foo\":bar}}", body)), ("garbage-unknown-value", format!("{{{},\"foo\":@@@[[[}}", body)),
+            ("unknown-value-missing", format!("{{{},\"foo\":}}", body)), ("unknown-nested-unterminated", format!("{{{},\"foo\":[1,{{\"a\":2}}", body)),
+        ] {
+            o.text_case("c14:jwk", &t, &format!("lax-json:{}", name), None, extra());
+            o.text_case("c14:parse", &t, &format!("lax-json:{}", name), None, json!({}));
         }
     }
 }
